@@ -58,6 +58,7 @@ def c03_spaces(tier):
         sp.append(("single", S, None, ("int", "O"), None, ("uniform",), ("plain", "self"), ("ret", "raise", "ret-rw")))
         sp.append(("pairs", S, S, ("int",), ("str", "O"), ("uniform",), ("plain",), ("ret",)))
         sp.append(("pairs-names-carriers", R, R, ("int",), ("str", "O"), ("uniform", "differing"), ("plain", "self", "selfovld"), ("ret", "raise", "ret-rw")))
+        sp.append(("pairs-differing-prefix", R, R, ("int",), ("str", "O"), ("differing-prefix",), ("plain", "self"), ("ret",)))
         sp.append(("dependent-above-plain", R, R, ("Lhit", "Lmiss", "Dhit", "Dmiss"), ("int", "O"), ("uniform",), ("plain", "self"), ("ret",)))
     else:
         S = sigs(POS_CONFIGS + POS3, KW_FULL)
@@ -66,6 +67,7 @@ def c03_spaces(tier):
         sp.append(("pairs", S, S, ("int", "O"), ("str", "O", "int"), ("uniform",), ("plain",), ("ret",)))
         sp.append(("pairs-names-carriers", R, R, ("int",), ("str", "O"), ("uniform", "differing"), ("plain", "self", "selfovld"), ("ret", "raise", "ret-rw")))
         sp.append(("dependent-above-plain", R, R, ("Lhit", "Lmiss", "Dhit", "Dmiss"), ("int", "O", "str"), ("uniform", "differing"), ("plain", "self", "selfovld"), ("ret", "ret-rw")))
+        sp.append(("pairs-differing-prefix", sigs(POS_CONFIGS + POS3, KW_SMALL), sigs(POS_CONFIGS + POS3, KW_SMALL), ("int",), ("str", "O"), ("differing-prefix",), ("plain", "self", "selfovld"), ("ret", "ret-rw")))
         T = sigs(POS_CONFIGS, KW_SMALL)
         sp.append(("triples", T, T, ("int",), ("str",), ("uniform",), ("plain",), ("ret",)))
     return sp
@@ -103,7 +105,10 @@ def iter_sets(tier, shard, nshards):
 def mspecs_for(sigset, naming, carrier, body):
     ms = []
     for i, ((pos, kw), t) in enumerate(sigset):
-        names = ("x", "y", "z") if (naming == "uniform" or i == 0) else ("a", "b", "c")
+        names = ("x", "y", "z") if (naming == "uniform" or i == 0) else ("a", "b", "c") if naming == "differing" else \
+            {1: ("a",), 2: ("a", "z"), 3: ("a", "b", "z")}.get(len(pos), ("a", "b", "z"))
+        if naming == "differing-prefix" and i == 0:
+            names = {1: ("x",), 2: ("x", "z"), 3: ("x", "y", "z")}.get(len(pos), ("x", "y", "z"))
         shape = shape_of(pos, kw, names, carrier != "plain")
         types = {nm: t for _, nm in zip(pos, names)}
         for nm, _ in kw:
@@ -238,6 +243,16 @@ def _check_set(mspecs, carrier, body, acc, space, naming, only_call, shared):
         variants = [("plain", None)]
         if kwpos and ts and only_call is None:
             variants += [("kwpos", j) for j in range(len(ts))]  # positionals from index j on passed by name
+        elif not kwpos and ts and only_call is None:
+            # names differ somewhere: by the documented rule positionals are then strictly positional. A trailing
+            # positional whose name IS the same in every method may still be tried by name: the call may be refused,
+            # but if it is accepted the value must arrive (never be dropped silently)
+            last = len(ts) - 1
+            nm = {m.pos[last][0] for m in ref.methods if len(m.pos) > last}
+            if len(nm) == 1 and all(p[1] == "N" for m in ref.methods for p in m.pos[last:last + 1]):
+                variants += [("kwlast", last)]
+                # ... and with the positionals between the supplied ones and that last one left out (binding integrity only)
+                variants += [("kwskip", L) for L in range(0, last)]
         elif only_call is not None and len(only_call) > 2:
             variants = [only_call[2]]
             ts, kws = only_call[0], only_call[1]
@@ -257,6 +272,44 @@ def _check_set(mspecs, carrier, body, acc, space, naming, only_call, shared):
                     call_args = args[:j]
                     for i in range(j, len(ts)):
                         call_kwargs[longest[i]] = args[i]
+                if vkind == "kwskip":
+                    nm = next(m.pos[len(ts) - 1][0] for m in ref.methods if len(m.pos) > len(ts) - 1)
+                    call_args = args[:j]
+                    call_kwargs[nm] = args[-1]
+                    out = gen.run_call(entries[entry](), call_args, call_kwargs, log)
+                    if acc is not None:
+                        acc.count("evaluations")
+                    if out[0] == "ret" or (body == "raise" and out[0] == "exc:KeyError"):
+                        if acc is not None:
+                            acc.count("nontrivial")
+                        mid, argd = log[0]
+                        m = ref.by_id[mid]
+                        bad = None
+                        if argd.get(nm) is not args[-1]:
+                            bad = ("binding:by-name-value-lost", {"param": nm, "got": repr(argd.get(nm))[:60], "want": repr(args[-1])[:60]})
+                        for i in range(j):
+                            if argd[m.pos[i][0]] is not args[i]:
+                                bad = ("binding:positional", {"param": m.pos[i][0]})
+                        for k in kws:
+                            if argd.get(k) is not kwargs[k]:
+                                bad = ("binding:keyword", {"param": k})
+                        if bad:
+                            case = {"space": space, "methods": mspecs, "carrier": carrier, "naming": naming, "body": body,
+                                    "call": {"types": list(ts), "kw": list(kws), "variant": [vkind, j], "entry": entry}}
+                            if acc is not None:
+                                acc.violation(case, bad[0], bad[1])
+                            else:
+                                found.append(bad)
+                    elif acc is not None:
+                        acc.count("by_name_refused")
+                    continue
+                if vkind == "kwlast":
+                    # the last supplied positional by name, and every optional positional before it left out when the
+                    # reference method allows that (this is the shape that loses the value when anything does)
+                    nm = next(m.pos[j][0] for m in ref.methods if len(m.pos) > j)
+                    lead = args[:j]
+                    call_args = lead
+                    call_kwargs[nm] = args[j]
                 out = gen.run_call(entries[entry](), call_args, call_kwargs, log)
                 okind = out[0]
                 disc = None
@@ -270,6 +323,14 @@ def _check_set(mspecs, carrier, body, acc, space, naming, only_call, shared):
                     if acc is not None:
                         acc.count("skipped_ambiguous")
                     continue
+                if vkind == "kwlast":
+                    # lenient oracle: refusing is fine; an accepted call must be the reference call with its bindings
+                    if okind != "ret" and not (body == "raise" and okind == "exc:KeyError"):
+                        if acc is not None:
+                            acc.count("by_name_refused")
+                        continue
+                    if rkind != "ret":
+                        continue
                 if rkind in ("nomethod", "rejected"):
                     if vkind == "kwpos":
                         continue  # what a keyword-passed positional does when nothing matches is C02's
@@ -356,7 +417,8 @@ def main(tier):
         PROP, tier, "model_checking", merged, t0,
         rule="signature sets (1-2, thorough 3 methods; 0-2 (3) positionals in every valid combination of positional-only / "
              "positional-or-keyword x required / optional; keyword-only k, j required / optional; uniform or differing "
-             "names; function / bound method through the entry point / through the Ovld descriptor; plus pairs in which the first "
+             "names, or a differing first name with a uniformly named last positional (passed by name with a lenient oracle: it may be refused, "
+             "but an accepted call must bind every value); function / bound method through the entry point / through the Ovld descriptor; plus pairs in which the first "
              "method's positionals carry a value-dependent annotation (Literal / Dependent, one that accepts the passed value and "
              "one that accepts none, so that the generated dependent dispatcher falls through to the plain method)) x every call shape "
              "(0..max+1 positionals x int/str per slot x every subset of {k, j} x positionals-by-keyword where documented) "
